@@ -42,15 +42,18 @@ class Hist:
         self.w.nets[n] = tn
         self.order.append(n)
         self.cur = n
+        dropped = False
         while len(self.order) > self.keep:
             old = self.order.pop(0)
             del self.w.nets[old]
             self.stale.discard(old)
+            dropped = True
         # tensors that no held network contains any more are forgotten (their owners would only list dead networks)
         live = {id(t) for tn_ in self.w.nets.values() for t in tn_.tensor_map.values()}
         for k in [k for k, t in self.w.tens.items() if id(t) not in live]:
             del self.w.tens[k]
-        gc.collect()
+        if dropped:
+            gc.collect()
         return n
 
     def log(self, ev, args=None):
